@@ -190,7 +190,9 @@ def language_empty(prog, rep, roles):
         ok = bool(segs)
         for s in segs:
             st = [ev for ev in s.events if ev[0] == 'store']
-            if not (s.kind == 'return' and len(st) == 1 and st[0][1] == ('F', ('P', ('param', 1)), 0) and st[0][2][0] == 'adt' and st[0][2][2] == 'None'):
+            field_none = len(st) == 1 and st[0][1] == ('F', ('P', ('param', 1)), 0) and st[0][2][0] == 'adt' and st[0][2][2] == 'None'
+            whole_empty = len(st) == 1 and st[0][1] == ('P', ('param', 1)) and is_empty_language(st[0][2])      # *self = Self::default() / Self(None)
+            if not (s.kind == 'return' and (field_none or whole_empty)):
                 ok = False
         rep.ob('empty:Language:clear:%s' % fn.split('::')[-1], 'EMPTY-LANG', fn, b['span'], 'Language::%s(&mut self) leaves the empty language' % fn.split('::')[-1], ok,
                detail='stores: %s' % [[(e.fmt(ev[1]), e.short(ev[2])) for ev in s.events if ev[0] == 'store'] for s in segs])
